@@ -222,7 +222,7 @@ def _mask(v):
     return ",".join("0x%08x" % w for w in reversed(words))
 
 
-def tree_to_xml(root, rng=None, extra_complete=0, allowed_cs=None, dont_merge_groups=False):
+def tree_to_xml(root, rng=None, extra_complete=0, allowed_cs=None, dont_merge_groups=False, allowed_nds=None):
     out = ['<?xml version="1.0" encoding="UTF-8"?>', '<!DOCTYPE topology SYSTEM "hwloc2.dtd">', '<topology version="3.0">']
     gp = [0]
 
@@ -238,7 +238,7 @@ def tree_to_xml(root, rng=None, extra_complete=0, allowed_cs=None, dont_merge_gr
                 a.append('allowed_cpuset="%s"' % _mask(o.cs if allowed_cs is None else allowed_cs))
             a.append('nodeset="%s" complete_nodeset="%s"' % (_mask(o.nds), _mask(o.nds)))
             if o.ty == "Machine":
-                a.append('allowed_nodeset="%s"' % _mask(o.nds))
+                a.append('allowed_nodeset="%s"' % _mask(o.nds if allowed_nds is None else allowed_nds))
         a.append('gp_index="%d" id="obj%d"' % (gp[0], gp[0]))
         if o.ty == "Group":
             a.append('kind="0" subkind="0"' + (' dont_merge="1"' if dont_merge_groups else ""))
